@@ -41,7 +41,6 @@ class ZemaxToOpticConverter:
         """
         for idx, surf_data in self.data['surfaces'].items():
             self._configure_surface(idx, surf_data)
-        self.optic.add_surface(index=len(self.data['surfaces']))
 
     def _configure_surface(self, index, data):
         """
